@@ -135,7 +135,8 @@ pub fn gen_config(rng: &mut Rng, profile: Profile) -> Config {
         }
         return Config {
             kind,
-            cap: if rng.chance(1, 2) { None } else { Some(100_000) },
+            // a capacity of 1.5 x keys enables the popularity table once half of it is filled
+            cap: match rng.below(4) { 0 => None, 1 => Some(100_000), _ => Some(keys as u64 + keys as u64 / 2) },
             weigher: false,
             ttl,
             tti,
@@ -488,7 +489,10 @@ impl Gen {
         let k = self.rng.below(nkeys as u64) as u32;
         let resident: Vec<u32> = truth.visible_candidates(now);
         let non_resident: Vec<u32> = (0..nkeys).filter(|x| !resident.contains(x)).collect();
-        let choice = if self.profile == Profile::Batch && self.rng.chance(1, 4) {
+        let storm_ok = cfg.kind == Kind::Sync && cfg.density == Density::Sparse && cfg.tti.map(|t| t > 501 * MS).unwrap_or(false);
+        let choice = if storm_ok && matches!(self.profile, Profile::Loss | Profile::Tti | Profile::General | Profile::Invalidate) && self.rng.chance(1, 5) {
+            97
+        } else if self.profile == Profile::Batch && self.rng.chance(1, 4) {
             99
         } else if self.profile == Profile::Pure && self.rng.chance(1, 3) {
             98
@@ -496,6 +500,31 @@ impl Gen {
             self.rng.below(8)
         };
         match choice {
+            // read burst: beyond the periodical-sync window, more gets than the read log holds and no
+            // write in between; then a get of another key, an explicit sync() and a probe of that key
+            // at a reading that only the last get keeps it alive for (C03: the idle-timer extension of a
+            // get counts once maintenance has run; C06: and not a tick longer)
+            97 => {
+                let a = if resident.is_empty() { k } else { *self.rng.pick(&resident) };
+                let b = (a + 1 + self.rng.below(nkeys.max(2) as u64 - 1) as u32) % nkeys.max(2);
+                let tti = cfg.tti.unwrap_or(SEC);
+                let v1 = self.vid();
+                let v2 = self.vid();
+                self.script.push_back(Op::Insert { k: a, vid: v1, w: 1 });
+                self.script.push_back(Op::Insert { k: b, vid: v2, w: 1 });
+                self.script.push_back(Op::Sync);
+                self.script.push_back(Op::Advance { ns: 501 * MS + self.rng.below(1000) });
+                self.script.push_back(Op::Gets { k: a, n: self.rng.range(380, 460) as u32 });
+                self.script.push_back(Op::Get { k: b });
+                if self.rng.chance(3, 4) {
+                    self.script.push_back(Op::Sync);
+                }
+                // the inserts' own idle deadline: tti after them, i.e. (tti - what was advanced) from now
+                let left = tti.saturating_sub(501 * MS + 1000);
+                self.script.push_back(Op::Advance { ns: match self.rng.below(3) { 0 => left, 1 => left + 1000, _ => tti - 1 } });
+                self.script.push_back(if self.rng.chance(1, 2) { Op::Get { k: b } } else { Op::Contains { k: b } });
+                self.script.push_back(Op::Get { k: a });
+            }
             // pending work: an update grows a resident (on the single-threaded cache the size excess
             // stays until a later call removes it), the clock moves to the next deadline, then one
             // operation has to do both the purge and the eviction. An observation slipped in before
